@@ -25,6 +25,8 @@ type Run struct {
 	timedOut int32
 	notes    []string
 	cands    map[string]*candidate
+	gs       guardSet
+	finished int32
 	Workers  int
 }
 
@@ -181,13 +183,20 @@ func (r *Run) NFailing() int {
 // violations to the report; a case that does not fail 5 times out of 5 is an
 // engine error, never a violation.
 func (r *Run) flush() {
-	fps := make([]string, 0, len(r.cands))
-	for fp := range r.cands {
+	r.mu.Lock()
+	cands := map[string]*candidate{}
+	for fp, c := range r.cands {
+		cc := *c
+		cands[fp] = &cc
+	}
+	r.mu.Unlock()
+	fps := make([]string, 0, len(cands))
+	for fp := range cands {
 		fps = append(fps, fp)
 	}
 	sort.Strings(fps)
 	for _, fp := range fps {
-		c := r.cands[fp]
+		c := cands[fp]
 		if c.again == nil && c.what == "" {
 			r.Chk.EngineError("fingerprint %s has no representative", fp)
 			continue
@@ -256,7 +265,13 @@ func (r *Run) Parallel(n int, fn func(i int)) (done int, all bool) {
 // Finish assembles the coverage map and ends the check. distinctRule states
 // how cases are enumerated and what makes one distinct / non-trivial.
 func (r *Run) Finish(rule string, exhaustive bool, extra map[string]interface{}, assumptions []string) int {
+	if !atomic.CompareAndSwapInt32(&r.finished, 0, 1) {
+		// the watchdog is already finishing the check
+		select {}
+	}
 	r.flush()
+	r.mu.Lock()
+	defer r.mu.Unlock()
 	cov := map[string]interface{}{}
 	for k, v := range extra {
 		cov[k] = v
